@@ -39,7 +39,7 @@ COMP = [("__eq__", np.equal), ("__ne__", np.not_equal), ("__lt__", np.less), ("_
 
 
 def nontrivial(case):
-    return int(np.prod(case["shape"])) >= 2
+    return case.get("w") == "huge" or int(np.prod(case["shape"])) >= 2
 
 
 def _shapes_upto(cells, maxN=3):
@@ -72,6 +72,14 @@ def gen_cases(tier, seed):
             for code in range(chunk, total, 16 * 8):
                 pat = [(code >> (2 * i)) & 3 for i in range(8)]
                 yield {"w": "joint", "shape": list(shp), "pat": pat, "cseed": int(seed) * 7919 + next(cs)}
+    # index spaces that cannot be expanded (2^64 cells and more): a handful of stored entries, chosen so that any linear index computed in
+    # machine integers collides; judged coordinate by coordinate
+    for shp in ([2, 2 ** 32, 2 ** 32], [3, 5 * 10 ** 9, 4 * 10 ** 9], [2 ** 22, 2 ** 22, 2 ** 22], [2 ** 33, 2 ** 33], [2 ** 16, 2 ** 16, 2 ** 16, 2 ** 17]):
+        for _ in range(1 if tier == "quick" else 4):
+            yield {"w": "huge", "shape": shp, "cseed": int(seed) * 7919 + next(cs)}
+    # large operands (thousands of stored entries on both sides): any blocking / chunking inside the row-set helpers must be invisible
+    for i in range(1 if tier == "quick" else 6):
+        yield {"w": "joint", "shape": [[30, 30, 10], [24, 20, 18], [95, 95]][i % 3], "density": [0.29, 0.33, 0.31][i % 3], "large": True, "cseed": int(seed) * 7919 + next(cs)}
     for _ in range(150 if tier == "quick" else 1500):
         N = int(rng.integers(1, 5))
         shp = gen.rand_shape(rng, N, 1, 4)
@@ -91,11 +99,74 @@ def _as_bool(x):
     return np.asarray(x) != 0
 
 
+def _huge_case(case, ctx):
+    import math
+
+    rng = np.random.default_rng(case["cseed"])
+    shape = tuple(int(x) for x in case["shape"])
+    N = len(shape)
+    cells = math.prod(shape)
+
+    def rnd():
+        return tuple(int(rng.integers(0, s_)) for s_ in shape)
+    base = rnd()
+    # coordinates whose row-major / column-major linear indices differ by a multiple of 2^64 where the shape allows it, plus neighbours
+    pts = {base}
+    for m in range(N):
+        stride_c = math.prod(shape[m + 1:])
+        stride_f = math.prod(shape[:m])
+        for stride in (stride_c, stride_f):
+            if stride and (2 ** 64) % stride == 0:
+                step = (2 ** 64) // stride
+                q = list(base)
+                if step < shape[m]:
+                    q[m] = (base[m] + step) % shape[m]
+                    pts.add(tuple(q))
+        q = list(base)
+        q[m] = (base[m] + 1) % shape[m]
+        pts.add(tuple(q))
+    pts = list(pts) + [rnd() for _ in range(2)]
+    pts = list(dict.fromkeys(pts))
+    a_pts = [p for i, p in enumerate(pts) if i % 3 != 2]
+    b_pts = [p for i, p in enumerate(pts) if i % 3 != 1]
+    dA = {p: float(rng.choice([1.0, 2.0, -1.0, 3.0])) for p in a_pts}
+    dB = {p: float(rng.choice([1.0, 2.0, -1.0, 3.0])) for p in b_pts}
+    for p in list(dB)[:1]:
+        if p in dA:
+            dB[p] = -dA[p]          # an exact cancellation under +
+    mk = lambda d: ttb.sptensor(np.array(list(d.keys()), dtype=np.int64), np.array(list(d.values())).reshape(-1, 1), shape)  # noqa: E731
+    SA, SB = mk(dA), mk(dB)
+    ctx.feat(N=N, huge=True, beyond_2_64=bool(cells >= 2 ** 64))
+    keys = set(dA) | set(dB)
+    table = [("__add__", lambda a, b: a + b), ("__sub__", lambda a, b: a - b), ("logical_and", lambda a, b: float(a != 0 and b != 0)),
+             ("logical_or", lambda a, b: float(a != 0 or b != 0)), ("logical_xor", lambda a, b: float((a != 0) != (b != 0))), ("__mul__", lambda a, b: a * b)]
+    for name, f in table:
+        want = {k: f(dA.get(k, 0.0), dB.get(k, 0.0)) for k in keys}
+        want = {k: v for k, v in want.items() if v != 0}
+        r = ctx.call("sptensor." + name, getattr(SA, name), SB)
+        if not r.ok:
+            ctx.check(False, "sptensor." + name, "RAISE:" + type(r.exc).__name__, f"{type(r.exc).__name__}: {r.exc} | {r.tb}", rhs="sptensor")
+            continue
+        R = r.value
+        ok = kind(R) == "sptensor" and tuple(int(x) for x in R.shape) == shape
+        got = {}
+        if ok and R.nnz:
+            for sub, v in zip(np.asarray(R.subs).tolist(), np.asarray(R.vals).reshape(-1).tolist()):
+                got[tuple(int(x) for x in sub)] = got.get(tuple(int(x) for x in sub), 0.0) + float(v)
+            ok = len(got) == R.nnz
+        ctx.check(ok and got == want, "sptensor." + name, "WRONG", lambda: f"shape {shape}: {name} gives {got} want {want} (A={dA}, B={dB})", rhs="sptensor")
+
+
 def run_case(case, ctx):
+    if case["w"] == "huge":
+        return _huge_case(case, ctx)
     rng = np.random.default_rng(case["cseed"])
     shape = tuple(case["shape"])
     n = int(np.prod(shape))
-    pat = np.array(case["pat"])
+    if "pat" not in case:
+        pat = (2 * (rng.random(n) < case["density"]) + (rng.random(n) < case["density"])).astype(int)
+    else:
+        pat = np.array(case["pat"])
     a_nz = (pat & 2) != 0
     b_nz = (pat & 1) != 0
     av = rng.choice(VALS, size=n)
@@ -109,9 +180,11 @@ def run_case(case, ctx):
     orders = ["sorted"]
     if max(na, nb) >= 2:
         orders.append("shuffled")
+    if case.get("large"):
+        orders = ["shuffled"]
     for ordk in orders:
         # object history: every other case reaches its sparse operands by growth (after operators have been evaluated on the smaller object)
-        hist = [None, "grown-subs", None, "grown-region"][case["cseed"] % 4]
+        hist = [None, "grown-subs", None, "grown-region"][case["cseed"] % 4] if not case.get("large") else None
         SA = gen.mk_sptensor(ttb, A, gen.stored_order(rng, na, ordk), hist=hist)
         SB = gen.mk_sptensor(ttb, B, gen.stored_order(rng, nb, ordk if ordk == "sorted" else "shuffled"), hist=hist)
         ctx.feat(hist=str(hist))
@@ -119,7 +192,7 @@ def run_case(case, ctx):
         ctx.feat(N=len(shape), nnzA=_nnzc(na), nnzB=_nnzc(nb), order=ordk, common=_nnzc(both),
                  a_only=bool((a_nz & ~b_nz).any()), b_only=bool((~a_nz & b_nz).any()), both_zero=bool((~a_nz & ~b_nz).any()),
                  full_A=(na == n), full_B=(nb == n))
-        for rk, R in (("sptensor", SB), ("tensor", TB)):
+        for rk, R in ((("sptensor", SB),) if case.get("large") else (("sptensor", SB), ("tensor", TB))):
             for name, uf in ARITH:
                 _binary(ctx, SA, name, R, rk, uf(A, B), exact=True, AB=(A, B))
             for name, uf in LOGIC:
@@ -131,7 +204,7 @@ def run_case(case, ctx):
             _judge(ctx, "sptensor.logical_not", r, "-", np.logical_not(A != 0), exact=False)
             c = float(SCALARS[case["cseed"] % len(SCALARS)])
             cs_ = [c, float(SCALARS[(case["cseed"] // 7) % len(SCALARS)])]
-            for c in dict.fromkeys(cs_):
+            for c in dict.fromkeys(cs_[:1] if case.get("large") else cs_):
                 ctx.feat(scalar=("0" if c == 0 else "neg" if c < 0 else "pos"))
                 for name, uf in ARITH:
                     _binary(ctx, SA, name, c, "scalar", uf(A, c), exact=True)
@@ -150,7 +223,7 @@ def run_case(case, ctx):
             _judge(ctx, "sptensor.elemfun", r, "-", A * -3.0, exact=True, fun="neg-scale")
             r = ctx.call("sptensor.elemfun", SA.elemfun, lambda v: v - 1.0)
             _judge(ctx, "sptensor.elemfun", r, "-", np.where(A != 0, A - 1.0, 0.0), exact=True, fun="shift")
-    if case["cseed"] % 4 == 1:
+    if case["cseed"] % 4 == 1 and not case.get("large"):
         _typed_block(case, ctx, rng, A, B, shape)
 
 
